@@ -33,6 +33,17 @@ def setup(chk):
     chk.env = AndroidYowsupEnv()
     chk.WAR = WARequest
     chk.key, chk.sig, chk.cls, chk.pub = consts()
+    # ephemeral key pairs whose public key starts / ends with every possible byte value: the blob's key field is cut out of the
+    # serialised key, a slip there shows only for particular key bytes (one draw in 256)
+    from axolotl.ecc.curve import Curve
+    chk.keypool = {}
+    for _ in range(60000):
+        kp = Curve.generateKeyPair()
+        raw = bytes(kp.publicKey.serialize()[1:])
+        for tag in (("first", raw[0]), ("last", raw[-1]), ("second", raw[1])):
+            chk.keypool.setdefault(tag, kp)
+        if len(chk.keypool) >= 256 + 128 + 256:
+            break
     pads = chk.driver.ask("reg pads")
     ip, op = pads.split(";")
     chk.ipad, chk.opad = bytes.fromhex(ip.split(":")[1]), bytes.fromhex(op.split(":")[1])
@@ -83,6 +94,10 @@ def cases(chk):
               ["authkey", {"kind": "bytes", "hex": bytes(r.randrange(256) for _ in range(32)).hex()}],
               ["pid", {"kind": "int", "n": r.randrange(100, 9999)}], ["x", {"kind": "str", "cps": [r.randrange(0x80, 0x800) for _ in range(r.randint(0, 4))]}]]
         yield "blob", {"params": ps[:r.randint(1, 5)], "seed": i}
+    for tag in sorted(chk.keypool):
+        if chk.quick() and tag[0] == "second" and tag[1] not in (0, 5, 255):
+            continue
+        yield "blob", {"params": [["cc", {"kind": "str", "cps": [52, 57]}], ["in", {"kind": "str", "cps": [49, 50, 51]}]], "seed": 0, "ephemeral": [tag[0], tag[1]]}
 
 
 def nontrivial(stream, case):
@@ -194,8 +209,23 @@ def run_case(chk, stream, case):
         pub_raw = priv.public_key().public_bytes(serialization.Encoding.Raw, serialization.PublicFormat.Raw)
         req = chk.WAR.__new__(chk.WAR)
         outs = []
-        for _ in range(2):
-            res = req.encryptParams(params, DjbECPublicKey(pub_raw))
+        import yowsup.common.http.warequest as WMOD
+        forced = chk.keypool.get(tuple(case["ephemeral"])) if case.get("ephemeral") else None
+        for call in range(2):
+            real_curve = WMOD.Curve
+            if forced is not None and call == 0:
+                class _Curve(object):
+                    def __getattr__(self, n):
+                        return getattr(real_curve, n)
+
+                    def generateKeyPair(self):
+                        return forced
+                WMOD.Curve = _Curve()
+                chk.hit("blob:ephemeral-%s-byte" % case["ephemeral"][0])
+            try:
+                res = req.encryptParams(params, DjbECPublicKey(pub_raw))
+            finally:
+                WMOD.Curve = real_curve
             if len(res) != 1 or res[0][0] != "ENC":
                 return [oracle("C20:blob-shape", "encryptParams returned %r" % (res,))]
             outs.append(base64.b64decode(res[0][1]))
@@ -203,6 +233,9 @@ def run_case(chk, stream, case):
         from cryptography.hazmat.primitives.asymmetric.x25519 import X25519PublicKey
         blob = outs[0]
         eph, ct = blob[:32], blob[32:]
+        if forced is not None and eph != bytes(forced.publicKey.serialize()[1:]):
+            return [oracle("C20:blob-key-field", "ephemeral public key %s: the blob's first 32 bytes are %s (blob of %d bytes)"
+                           % (bytes(forced.publicKey.serialize()[1:]).hex(), eph.hex(), len(blob)))]
         try:
             shared = priv.exchange(X25519PublicKey.from_public_bytes(eph))
             plain = AESGCM(shared).decrypt(b"\x00\x00\x00\x00" + struct.pack(">Q", 0), ct, b"")
